@@ -68,13 +68,14 @@ impl<const L: usize> Env<L> {
 /// growing vectors (a `Vec` whose length depends on the path taken is out of CBMC's reach).
 #[derive(Clone, Copy)]
 pub struct Placed {
+    pub asset: usize,
     pub bid: bool,
     pub vol: Vol,
     pub trader: TraderId,
     pub price: Option<Price>,
 }
 pub const PLACED_CAP: usize = 8;
-pub static mut PLACED: [Placed; PLACED_CAP] = [Placed { bid: false, vol: 0, trader: 0, price: None }; PLACED_CAP];
+pub static mut PLACED: [Placed; PLACED_CAP] = [Placed { asset: 0, bid: false, vol: 0, trader: 0, price: None }; PLACED_CAP];
 pub static mut NPLACED: usize = 0;
 pub static mut NCANCELLED: usize = 0;
 pub static mut CANCELLED: [OrderId; PLACED_CAP] = [0; PLACED_CAP];
@@ -100,7 +101,7 @@ impl<const LEVELS: usize> Env<LEVELS> {
         unsafe {
             let n = NPLACED;
             if n < PLACED_CAP {
-                PLACED[n] = Placed { bid: matches!(side, Side::Bid), vol, trader: trader_id, price };
+                PLACED[n] = Placed { asset: 0, bid: matches!(side, Side::Bid), vol, trader: trader_id, price };
             }
             NPLACED = n + 1;
             Ok(n)
